@@ -689,6 +689,8 @@ func (t *Table) IndexesDescription() ([]types.GlobalSecondaryIndexDescription, [
 	lsi := []types.LocalSecondaryIndexDescription{}
 
 	for indexName, index := range t.Indexes {
+		// each description keeps its own copy of the name (the range variable is reused by every iteration)
+		indexName := indexName
 		schema := index.keySchema.describe()
 		count := index.count()
 
